@@ -63,12 +63,13 @@ func (a *Application) proxyHandler(w http.ResponseWriter, r *http.Request) {
 	// so its StripPrefix is a no-op. This mirrors providerProxyHandler (line 100).
 	r.URL.Path = pr.targetPath
 
-	err = a.executeProxyRequest(ctx, w, r, endpoints, pr)
+	tw := &responseStartTracker{ResponseWriter: w}
+	err = a.executeProxyRequest(ctx, tw, r, endpoints, pr)
 
 	a.logRequestResult(pr, err)
 
 	if err != nil {
-		a.handleProxyError(w, err)
+		a.handleProxyError(tw, err)
 	}
 }
 
@@ -350,11 +351,11 @@ func (a *Application) handleEndpointError(w http.ResponseWriter, pr *proxyReques
 func (a *Application) handleProxyError(w http.ResponseWriter, err error) {
 	// a body that outgrew the size limit while being read is the client's error, not a gateway failure
 	var tooLarge *http.MaxBytesError
-	if errors.As(err, &tooLarge) && w.Header().Get(constants.HeaderContentType) == "" {
+	if errors.As(err, &tooLarge) && !responseStarted(w) {
 		http.Error(w, "Request body too large", http.StatusRequestEntityTooLarge)
 		return
 	}
-	if w.Header().Get(constants.HeaderContentType) == "" {
+	if !responseStarted(w) {
 		http.Error(w, fmt.Sprintf("Proxy error: %v", err), http.StatusBadGateway)
 	}
 }
